@@ -94,6 +94,8 @@ class Case:
                 self.kinds += [("i", b) for b in v]
             elif k == "s":
                 self.kinds += [("s", None)] * v
+            elif k == "v":
+                self.kinds += [("s", None)] * v[3]
             else:
                 self.kinds += [("s", None) if b is None else ("n", b) for b in v]
         self.n = len(self.kinds)
@@ -106,26 +108,30 @@ class Case:
                 out.append("c:" + v.hex())
             elif k == "s":
                 out.append(f"s:{v}")
+            elif k == "v":
+                out.append(f"s:{v[3]}")        # unknown bytes for the model; how they are backed is the route
             else:
                 out.append("m:" + ",".join("?" if b is None else f"{b:02x}" for b in v))
         return "+".join(out) if out else "-"
 
     def key(self):
-        return self.lean_pieces() + "|" + self.route
+        views = ";".join(f"{v[1]}@{v[2]}+{v[3]}" for k, v in self.pieces if k == "v")
+        return self.lean_pieces() + "|" + self.route + ("|views:" + views if views else "")
 
     def to_json(self):
-        return {"pieces": [[k, (v.hex() if k == "c" else v)] for k, v in self.pieces], "route": self.route}
+        return {"pieces": [[k, (v.hex() if k == "c" else list(v) if k == "v" else v)] for k, v in self.pieces], "route": self.route}
 
     @staticmethod
     def from_json(d):
         if "view" in d:
             return ViewCase(d["view"])
-        return Case([(k, bytes.fromhex(v) if k == "c" else v) for k, v in d["pieces"]], d.get("route", "bytevec"))
+        return Case([(k, bytes.fromhex(v) if k == "c" else tuple(v) if k == "v" else v) for k, v in d["pieces"]],
+                    d.get("route", "bytevec"))
 
     def fast_len(self):
         """length of `_fastcode` (None when there is none): first non-empty chunk, if concrete"""
         for k, v in self.pieces:
-            ln = len(v) if k != "s" else v
+            ln = v if k == "s" else v[3] if k == "v" else len(v)
             if ln == 0:
                 continue
             return ln if k == "c" else None
@@ -150,6 +156,13 @@ class Case:
                 else:
                     chunks.append(b"")
                 pos += v
+            elif k == "v":
+                # a window [k0, k0+n) into a W-byte symbolic value: SymbolicChunk with start = k0 (as CALLDATACOPY from
+                # calldata[4:] or a RETURN from the middle of a symbolic word produce)
+                nm, W, k0, nn = v
+                chunks.append(h["ByteVec"](z3.BitVec(nm, 8 * W)).slice(k0, k0 + nn))
+                names.append((nm, W, pos, k0, nn))
+                pos += nn
             else:
                 parts = []
                 for j, b in enumerate(v):
@@ -185,7 +198,15 @@ def valuations(rng, names, n):
     envs, sigmas = [], []
     for j in range(2):
         env, sigma = {}, {}
-        for nm, nb, pos in names:
+        for entry in names:
+            nm, nb, pos = entry[:3]
+            k0, nn = (entry[3], entry[4]) if len(entry) == 5 else (0, nb)
+            if nm in env:
+                val = env[nm]
+                bs = val.to_bytes(nb, "big")
+                for i in range(nn):
+                    sigma[pos + i] = bs[k0 + i]
+                continue
             if j == 0:
                 val = rng.getrandbits(8 * nb)
             else:
@@ -193,8 +214,8 @@ def valuations(rng, names, n):
                 val = int.from_bytes(bytes(rng.choice((0x5B, 0x60, 0x7F, 0x00, 0xFF, 0x56)) for _ in range(nb)), "big")
             env[nm] = val
             bs = val.to_bytes(nb, "big")
-            for i in range(nb):
-                sigma[pos + i] = bs[i]
+            for i in range(nn):
+                sigma[pos + i] = bs[k0 + i]
         envs.append(env)
         sigmas.append(sigma)
     return envs, sigmas
@@ -623,12 +644,23 @@ def chunkings(sym_string, split):
             i = j
         return out
     a = runs(0, split) + runs(split, n)
-    yield a
+    yield ("plain", a)
+    if any(k == "s" for k, _ in a):
+        c, pos = [], 0
+        for k, v in a:
+            if k == "s":
+                k0 = (1, 2, v, v + 1, 33)[(pos + v + split) % 5]
+                c.append(("v", (f"c19_v{pos}_{k0}", k0 + v + (pos % 3), k0, v)))
+                pos += v
+            else:
+                c.append((k, v))
+                pos += len(v)
+        yield ("view", c)
     if split < n:
         tail = list(sym_string[split:])
         b = runs(0, split) + [("m", tail)]
         if Case(b).lean_pieces() != Case(a).lean_pieces():
-            yield b
+            yield ("mixed", b)
 
 
 def harvest_literals():
@@ -714,7 +746,11 @@ def random_chunking(rng, s, lens):
                 isn = seg[i] is None
                 while j < len(seg) and (seg[j] is None) == isn:
                     j += 1
-                pieces.append(("s", j - i) if isn else ("c", bytes(seg[i:j])))
+                if isn and rng.random() < 0.5:
+                    k0 = rng.choice((1, 2, 4, j - i, j - i + 1, 33))
+                    pieces.append(("v", (f"c19_v{lo + i}_{k0}", k0 + (j - i) + rng.randrange(3), k0, j - i)))
+                else:
+                    pieces.append(("s", j - i) if isn else ("c", bytes(seg[i:j])))
                 i = j
     if rng.random() < 0.15:
         pieces.insert(rng.randrange(len(pieces) + 1), ("c", b""))
@@ -1239,10 +1275,15 @@ def pieces_of_bytevec(bv):
     """the chunk list `Contract.__init__` is handed (concrete chunks only)"""
     h = H()
     out = []
+    z3 = h["z3"]
     for _, ch in bv.chunks.items():
-        if not isinstance(ch, h["ConcreteChunk"]):
-            raise RuntimeError(f"view route produced a non-concrete chunk: {ch!r}")
-        out.append(("c", bytes(ch.unwrap())))
+        if isinstance(ch, h["ConcreteChunk"]):
+            out.append(("c", bytes(ch.unwrap())))
+        elif isinstance(ch, h["SymbolicChunk"]) and z3.is_const(ch.data) and ch.data.decl().kind() == z3.Z3_OP_UNINTERPRETED:
+            # a window into a named symbolic value (e.g. the calldata blob)
+            out.append(("v", (ch.data.decl().name(), ch.data.size() // 8, ch.start, ch.length)))
+        else:
+            raise RuntimeError(f"view route produced a chunk the harness cannot name: {ch!r}")
     return out
 
 
@@ -1262,7 +1303,7 @@ class ViewCase(Case):
         Case.__init__(self, pieces, "view")
         self.pieces = pieces          # keep empty chunks etc. exactly as found
         got = b"".join(v for k, v in pieces if k == "c")
-        self.content_ok = got == self.expected
+        self.content_ok = got == self.expected or any(k == "v" for k, _ in pieces)
 
     def key(self):
         return "view|" + json.dumps(self.recipe, sort_keys=True)
@@ -1275,16 +1316,23 @@ class ViewCase(Case):
         z3 = h["z3"]
         bv = self._bv.copy() if hasattr(self._bv, "copy") else self._bv
         names = []
+        pos = 0
+        for k, v in self.pieces:
+            if k == "v":
+                names.append((v[0], v[1], pos, v[2], v[3]))
+                pos += v[3]
+            elif k == "c":
+                pos += len(v)
         tail = self.recipe.get("tail", 0)
         if tail:
-            pos = len(self.expected)
+            pos = self.n - tail
             nm = f"c19_s{pos}_{tail}"
             bv.append(z3.BitVec(nm, 8 * tail))
             names.append((nm, tail, pos))
         return h["Contract"](bv), names
 
 
-def memory_view_case(sevmdrv, sevm, args, template, patches, ret):
+def memory_view_case(sevmdrv, sevm, args, template, patches, ret, calldata=None):
     """assemble code in memory the way a constructor does, on the real SEVM:
        CODECOPY(0, off, len(template)); MSTORE8/MSTORE patches; RETURN(ret[0], ret[1]).  The template sits in the middle of
        the init program's own code (followed by more code bytes).  Returns a ViewCase over the RETURN data."""
@@ -1298,11 +1346,19 @@ def memory_view_case(sevmdrv, sevm, args, template, patches, ret):
         out = push(len(template)) + bytes([0x61]) + toff.to_bytes(2, "big") + bytes([0x5F, 0x39])
         for kind, off, val in patches:
             out += push(val) + push(off) + bytes([0x53 if kind == "mstore8" else 0x52])
+        if calldata is not None:
+            # constructor arguments: CALLDATACOPY(dest, offset, size) from one symbolic calldata blob
+            blob_len, cd_off, cd_size, dest = calldata
+            out += push(cd_size) + push(cd_off) + push(dest) + bytes([0x37])
         out += push(ret[1]) + push(ret[0]) + bytes([0xF3])
         return out
     toff = len(prog(0))
     init = prog(toff) + template + bytes([0x00, 0x5B])
-    exs = list(sevm.run(sevmdrv.mk_ex(sevm, args, init)))
+    cd = None
+    if calldata is not None:
+        h = H()
+        cd = h["ByteVec"](h["z3"].BitVec(f"c19_calldata_{calldata[0]}", 8 * calldata[0]))
+    exs = list(sevm.run(sevmdrv.mk_ex(sevm, args, init, calldata=cd)))
     if len(exs) != 1 or exs[0].context.output.error is not None:
         raise RuntimeError(f"memory route: init program did not return: {init.hex()}")
     data = exs[0].context.output.data
@@ -1314,6 +1370,8 @@ def memory_view_case(sevmdrv, sevm, args, template, patches, ret):
         mem[off: off + len(b)] = b
     expected = bytes(mem[ret[0]: ret[0] + ret[1]]).ljust(ret[1], b"\x00")
     recipe = {"memory": init.hex(), "buffer": [], "note": "RETURN data of this init program on the real SEVM"}
+    if calldata is not None:
+        recipe["calldata"] = calldata[0]
     return ViewCase(recipe, bv=data, expected=expected)
 
 
@@ -1408,6 +1466,23 @@ def view_section(ctx, rng, pool, lean):
         a = rng.choice((0, 0, 0, rng.randrange(total)))
         ret = (a, rng.choice((total - a, n - a if n > a else 1, rng.randrange(1, total - a + 1))))
         mem_cases.append(memory_view_case(sevmdrv, sevm, args, template, patches, ret))
+    for _ in range(ctx.scale(40, 400)):
+        n = rng.randrange(1, 24)
+        template = bytes(rng.choice(alpha + [0x60, 0x61, 0x67, 0x7F, 0x7F]) for _ in range(n))
+        blob = rng.choice((36, 40, 68, 100))
+        cd_off = rng.choice([o for o in (4, 4, 4, 1, 5, 32, 36) if o < blob - 1])
+        cd_size = rng.randrange(1, min(blob - cd_off, 40) + 1)
+        dest = n if rng.random() < 0.8 else max(n - 1, 0)
+        total = dest + cd_size
+        a = rng.choice((0, 0, 0, rng.randrange(total)))
+        ret = (a, rng.choice((total - a, rng.randrange(1, total - a + 1), total - a + 2)))
+        try:
+            mem_cases.append(memory_view_case(sevmdrv, sevm, args, template, [], ret, calldata=(blob, cd_off, cd_size, dest)))
+            ctx.count("view:memory-assembled:calldata-tail")
+        except RuntimeError as e:
+            if "cannot name" not in str(e):
+                raise
+            ctx.count("view:memory-assembled:skipped-unnamed-chunk")
     ctx.count("view:memory-assembled", len(mem_cases))
     cases += mem_cases
     good = []
@@ -1423,6 +1498,7 @@ def view_section(ctx, rng, pool, lean):
         if first is not None and hasattr(first, "data") and isinstance(first.data, bytes):
             ctx.count("view:first-chunk:" + ("window-at-0-shorter-than-buffer" if first.start == 0 and len(first) < len(first.data)
                                                else "window-not-at-0" if first.start != 0 else "whole-buffer"))
+    ctx.count("view:symbolic-window-start-nonzero", sum(1 for c in good for k, v in c.pieces if k == "v" and v[2] != 0))
     run_cases(ctx, [c for c in good if c.n <= 12], rng, True, "views-small")
     run_cases(ctx, [c for c in good if c.n > 12], rng, False, "views-medium", extra_slices_fn=lambda case: _view_slices(case, rng))
 
@@ -1473,6 +1549,8 @@ def corpus_cases():
     return out
 
 
+EIP1967_SLOT = "360894a13ba1a3210667c828492db98dca3e2076cc3735a920a3ca505d382bbc"
+
 BUILTIN = [
     # (pieces, route) — boundary situations read off the code
     ([("c", bytes.fromhex("6003565b00"))], "bytes"),
@@ -1488,6 +1566,14 @@ BUILTIN = [
     ([("c", b"")], "bytes"),
     ([("c", b""), ("c", bytes.fromhex("5b"))], "bytevec"),
     ([("s", 0), ("c", bytes.fromhex("5b60"))], "bytevec"),
+    # PUSH32 <EIP-1967 implementation slot> (byte 0x76 = PUSH23 near its end) followed by real JUMPDESTs
+    ([("c", bytes.fromhex("7f" + EIP1967_SLOT + "5b5b005b" + "00" * 24 + "5b5b"))], "bytes"),
+    ([("c", bytes.fromhex("5b7f" + EIP1967_SLOT)), ("c", bytes.fromhex("5b545b00"))], "bytevec"),
+    # unknown bytes that are windows (start != 0) into larger symbolic values: PUSH8 / PUSH2 operands inside / straddling them
+    ([("c", bytes.fromhex("5b600067")), ("v", ("c19_blob_a", 36, 4, 32))], "bytevec"),
+    ([("c", bytes.fromhex("61")), ("v", ("c19_blob_b", 8, 2, 3)), ("c", bytes.fromhex("5b"))], "bytevec"),
+    ([("c", bytes.fromhex("7f")), ("v", ("c19_blob_c", 70, 33, 32)), ("c", bytes.fromhex("5b00"))], "bytevec"),
+    ([("c", bytes.fromhex("60")), ("v", ("c19_blob_d", 3, 1, 2))], "bytevec"),
 ]
 
 
@@ -1517,6 +1603,7 @@ def correspond(ctx):
     # 1. exhaustive small scope
     L = ctx.scale(4, 5)   # length 6 takes over an hour: the thorough budget is 20 min
     Lmixed = ctx.scale(3, 4)
+    Lview = ctx.scale(3, 5)      # unknown runs backed by windows (start != 0) into larger symbolic values
     cases = []
     routes = ["bytes", "hex", "bytevec", "bvval", "hex0x"]
     idx = 0
@@ -1524,10 +1611,12 @@ def correspond(ctx):
         for s in itertools.product(ALPHABET, repeat=n):
             has_unknown = any(b is None for b in s)
             for split in range(0, n + 1):
-                for li, pieces in enumerate(chunkings(list(s), split)):
-                    if li == 1 and n > Lmixed:
+                for tag, pieces in chunkings(list(s), split):
+                    if tag == "mixed" and n > Lmixed:
                         continue
-                    if has_unknown is False and split in (0, n) and li == 0:
+                    if tag == "view" and n > Lview and split != 0:
+                        continue
+                    if has_unknown is False and split in (0, n) and tag == "plain":
                         route = routes[idx % len(routes)]
                         idx += 1
                     else:
@@ -1555,9 +1644,23 @@ def correspond(ctx):
         n = rng.randrange(L + 1, 10)
         s = [rng.choice(ALPHABET + [0x5B, 0x60]) for _ in range(n)]
         split = rng.randrange(n + 1)
-        lay = list(chunkings(s, split))
+        lay = [p for _, p in chunkings(s, split)]
         more.append(Case(rng.choice(lay), "bytevec"))
     run_cases(ctx, more, rng, True, "small-random")
+
+    # 1c. PUSH32 whose operand contains a PUSHn byte at every position, followed by JUMPDESTs right after and within 32 bytes
+    combos = [(i, b) for i in range(32) for b in range(0x60, 0x80)]
+    rng.shuffle(combos)
+    p32 = []
+    for i, b in combos[: ctx.scale(220, 1024)]:
+        operand = bytearray(rng.choice((0x00, 0x00, 0x5B, 0x36)) for _ in range(32))
+        operand[i] = b
+        after = bytes([0x5B]) + bytes(rng.choice((0x00, 0x5B, 0x5B)) for _ in range(34))
+        code = bytes([rng.choice((0x5B, 0x00))]) + bytes([0x7F]) + bytes(operand) + after
+        cut = rng.choice((0, 1, 2, 2 + i, 34, 35))
+        pieces = [("c", code)] if cut == 0 else [("c", code[:cut]), ("c", code[cut:])]
+        p32.append(Case(pieces, "bytevec"))
+    run_cases(ctx, p32, rng, False, "push32-with-push-byte-in-operand")
 
     _lap(ctx, "small-random")
     # 2. medium random strings with random chunkings (all pcs decoded, slices around the boundaries)
@@ -1652,9 +1755,13 @@ def replay(ctx, data) -> bool:
     if "view" in r and "memory" in r["view"]:
         from vlib import sevmdrv
         sevm, args = sevmdrv.mk_sevm(depth=TRACE_DEPTH)
-        exs = list(sevm.run(sevmdrv.mk_ex(sevm, args, bytes.fromhex(r["view"]["memory"]))))
+        cd = None
+        if r["view"].get("calldata"):
+            h = H()
+            cd = h["ByteVec"](h["z3"].BitVec(f"c19_calldata_{r['view']['calldata']}", 8 * r["view"]["calldata"]))
+        exs = list(sevm.run(sevmdrv.mk_ex(sevm, args, bytes.fromhex(r["view"]["memory"]), calldata=cd)))
         bv = exs[0].context.output.data
-        case = ViewCase(r["view"], bv=bv, expected=b"".join(v for _, v in pieces_of_bytevec(bv)))
+        case = ViewCase(r["view"], bv=bv, expected=b"".join(v for k, v in pieces_of_bytevec(bv) if k == "c"))
         before = len(ctx.violations)
         run_cases(ctx, [case], ctx.rng, case.n <= 12, "replay")
         for v in ctx.violations[before:]:
